@@ -23,12 +23,19 @@ from ..oracles import sep_paths as O
 PROP = "C04"
 RULE = ("random ADMGs (2-7 nodes; bidirected chains through conditioned nodes and through ancestors of conditioned "
         "nodes, parallel directed+bidirected pairs, isolated nodes, random insertion order) x ordered pairs of distinct "
-        "nodes x conditioning sets (empty, sampled, collider-targeted); whole verdict tables (all pairs x all conditioning "
-        "sets) for ADMGs on <=4 nodes (quick: sampled, thorough: every ADMG on <=3 nodes and sampled 4-5 node ones); a "
+        "nodes x conditioning sets (empty, sampled, collider-targeted); STRUCTURED shapes in which one deep feature decides the "
+        "verdict (tags shape / collider_depth / anc_depth / c04c_decisive count them): a single route whose colliders are opened "
+        "only by a conditioned descendant 0-5 directed steps below, long forks (common ancestor 1-4 steps above each endpoint), "
+        "bidirected chains of 3-5 inner colliders (all / all but one / some conditioned, directly or through descendants), fully "
+        "conditioned districts of 2-4 nodes marrying private parents of different members (seeded/C04c, C03c), sparse 7-10 node "
+        "ADMGs with up to 8 conditions, disconnected graphs; name tables other than A%02d for a share of the cases (tag names: "
+        "mixed lengths / case, and counterfactual-variable nodes in two worlds of one base name); whole verdict tables (all pairs x all conditioning "
+        "sets) for ADMGs on <=4 nodes and structured 5-6 node graphs (quick: sampled, thorough: every ADMG on <=3 nodes, sampled 4-5 node ones); a "
         "malformed stream (endpoint or condition not in the graph, endpoint inside the conditioning set, a == b, cyclic "
         "graphs, non-Variable arguments). A case is non-trivial when it is in the property's scope and either the "
         "conditioning set is non-empty or the true verdict changes when every bidirected edge is deleted.")
 ASSUMPTIONS = [
+    "node NAMES: the model works on integers; the real code is driven through three ORDER-PRESERVING name tables (integer order = order of str(node), which is what DSeparationJudgement.create sorts by): A00.., gen_graph.MIXED_NAMES (B, Ba, C1, C10, C2, .., X1, X10, X2, .., a, aB, ..) and counterfactual-variable nodes (A00, A00 @ +A09, A00 @ -A09, ..). That the verdict and the record do not depend on the kind of node is a runtime clause decided by correspondence + oracle (it found the is_canonical defect fixed by bc09ee6)",
     "argument FORMS (harness/forms.py), chosen deterministically per case, written into the case (`forms`) and tagged form_*: the conditioning set is handed to are_d_separated / DSeparationJudgement.create in every iterable form the signature allows (list, tuple, set, frozenset, dict keys, generator, iterator, map; an empty set also as None or omitted), with different forms for the query, the swapped query and the query on the re-shuffled graph; graph / a / b positional or by keyword; the graph built through every public constructor of NxMixedGraph (from_edges with lists / tuples / generators / iterators / sets, from_str_edges, from_adj, from_str_adj, from_latent_variable_dag, incremental add_* calls). The model takes a list, so independence of the form is a runtime clause decided by correspondence + oracle (seeded/C04b)",
     "the 'compatible models' of the last clause are the semi-Markovian models of lean/Y0/Spec/Scm.lean (Scm.Compatible: discrete "
     "variables of any cardinality, positive rational parameters, independent root latents of any arity, two observed variables "
@@ -145,6 +152,469 @@ def rand_query(rng, g):
     return a, b, Cs
 
 
+
+# ------------------------------------------------------------------------------------------ structured shapes
+# (sepG, gap review round 5: G04-1..4, G15-2/3, G20-4)  Random ADMGs with edge probability >= 0.1 almost always have a second
+# open path, so no verdict of the random stream ever depended on anything deeper than a parent.  Each template below makes ONE
+# deep feature decisive: the graph is a tree-like skeleton around a single connecting route, labels are a random permutation
+# (so no label order is correlated with the role of a node), edge lists are shuffled.  Every template returns
+# (g, a, b, Cs, shape); `structured_query` draws one.  The same templates feed C15 (graphs only) and C20 (acyclic side).
+
+class _B:
+    """tiny graph builder with fresh node numbers"""
+
+    def __init__(self):
+        self.n = 0
+        self.di, self.bi, self.iso = [], [], []
+
+    def new(self):
+        self.n += 1
+        return self.n - 1
+
+    def chain_below(self, v, d):
+        """v -> c1 -> ... -> cd ; returns [c1..cd]"""
+        out = []
+        for _ in range(d):
+            c = self.new()
+            self.di.append([v, c])
+            v = c
+            out.append(c)
+        return out
+
+    def finish(self, rng, a, b, Cs, shape, extra_labels=0):
+        lab = list(range(self.n + extra_labels))
+        rng.shuffle(lab)
+        m = lambda v: lab[v]  # noqa: E731
+        di = [[m(u), m(v)] for u, v in self.di]
+        bi = [[m(u), m(v)] if rng.random() < 0.5 else [m(v), m(u)] for u, v in self.bi]
+        rng.shuffle(di)
+        rng.shuffle(bi)
+        touched = {x for e in di + bi for x in e}
+        nodes = [m(v) for v in range(self.n) if m(v) not in touched or rng.random() < 0.3]
+        rng.shuffle(nodes)
+        Cs = [m(c) for c in Cs]
+        rng.shuffle(Cs)
+        if rng.random() < 0.5:
+            a, b = b, a
+        return {"nodes": nodes, "di": di, "bi": bi}, m(a), m(b), Cs, shape
+
+
+def _noise(rng, B, protect, k=None):
+    """0-2 nodes that cannot open or close anything: an isolated node, a leaf child, or a root parent of a single node"""
+    for _ in range(rng.choice([0, 0, 1, 1, 2]) if k is None else k):
+        x = B.new()
+        r = rng.random()
+        if r < 0.35 or B.n <= 1:
+            continue                                         # isolated (listed by finish)
+        v = rng.randrange(B.n - 1)
+        if r < 0.7:
+            B.di.append([v, x])                              # a leaf below v (unconditioned: opens nothing)
+        else:
+            B.di.append([x, v])                              # a root above v with this single child
+
+
+def shape_deep_path(rng, dmax=5, budget=10):
+    """ONE route a ... b of 2-4 edges (->, <- or <->) with at least one collider; every collider is opened by its nearest
+    conditioned descendant at distance 0..dmax (mostly >= 2) down a private directed chain.  Variants: one collider left
+    closed (separated), a non-collider conditioned (separated), the conditioned node one step too high is NOT a variant - the
+    whole chain below a collider is unconditioned except its last node, so the depth of the chain is what decides."""
+    B = _B()
+    k = rng.choice([2, 2, 2, 3, 3, 4])
+    p = [B.new() for _ in range(k + 1)]
+    kinds = [rng.choice(["fwd", "back", "bi"]) for _ in range(k)]
+    i = rng.randrange(k - 1)
+    kinds[i] = rng.choice(["fwd", "bi"])
+    kinds[i + 1] = rng.choice(["back", "bi"])
+    head = [set() for _ in range(k + 1)]
+    for j, kind in enumerate(kinds):
+        u, w = p[j], p[j + 1]
+        if kind == "fwd":
+            B.di.append([u, w]); head[j + 1].add(j)
+        elif kind == "back":
+            B.di.append([w, u]); head[j].add(j)
+        else:
+            B.bi.append([u, w]); head[j].add(j); head[j + 1].add(j)
+    colliders = [j for j in range(1, k) if len(head[j]) == 2]
+    Cs, depths = [], []
+    for j in colliders:
+        d = min(rng.choice([0, 1, 2, 2, 3, 3, 4, 4, 5]), dmax, max(0, budget - B.n - 2 * (len(colliders) - len(depths) - 1)))
+        ch = B.chain_below(p[j], d)
+        Cs.append(ch[-1] if ch else p[j])
+        depths.append(d)
+        if ch and rng.random() < 0.25:                        # an unconditioned side branch off the chain
+            x = B.new()
+            B.di.append([rng.choice([p[j]] + ch[:-1]), x])
+    r = rng.random()
+    variant = "open"
+    if r < 0.15:
+        Cs.pop(rng.randrange(len(Cs)))
+        variant = "collider_closed"
+    elif r < 0.25:
+        non = [j for j in range(1, k) if j not in colliders]
+        if non:
+            Cs.append(p[rng.choice(non)])
+            variant = "noncollider_conditioned"
+    _noise(rng, B, p)
+    return B.finish(rng, p[0], p[-1], Cs, f"deep_path:{variant}")
+
+
+def shape_long_fork(rng):
+    """a <- p1 <- ... <- r -> ... -> q1 -> b (1-4 steps on each side, >= 3 in all; the top optionally a bidirected edge):
+    the only connection is a common ancestor several steps above both endpoints"""
+    B = _B()
+    dl, dr = rng.randint(1, 4), rng.randint(1, 4)
+    while dl + dr < 3:
+        dl, dr = rng.randint(1, 4), rng.randint(1, 4)
+    a, b = B.new(), B.new()
+    if rng.random() < 0.3:                                    # top is l <-> r, both sides are directed chains down
+        l, r_ = B.new(), B.new()
+        B.bi.append([l, r_])
+        left = [l] + B.chain_below(l, dl - 1)
+        right = [r_] + B.chain_below(r_, dr - 1)
+    else:
+        root = B.new()
+        left = B.chain_below(root, dl - 1)
+        right = B.chain_below(root, dr - 1)
+        left, right = [root] + left, [root] + right
+    B.di.append([left[-1], a])
+    B.di.append([right[-1], b])
+    inner = sorted(set(left + right))
+    r = rng.random()
+    Cs, variant = [], "open"
+    if r < 0.25:
+        Cs, variant = [rng.choice(inner)], "inner_conditioned"
+    elif r < 0.45:
+        x = B.new()                                           # a conditioned CHILD of an inner node: still open
+        B.di.append([rng.choice(inner), x])
+        Cs, variant = [x], "child_conditioned"
+    _noise(rng, B, inner)
+    return B.finish(rng, a, b, Cs, f"long_fork:{variant}")
+
+
+def shape_bidirected_chain(rng):
+    """a ?-> c1 <-> c2 <-> ... <-> ck <-? b with k = 3..5 inner colliders (end edges directed or bidirected); all of them
+    conditioned (directly or through a descendant at distance 1-3): connected; one left out / a random subset: separated"""
+    B = _B()
+    k = rng.choice([3, 3, 4, 4, 5])
+    a, b = B.new(), B.new()
+    c = [B.new() for _ in range(k)]
+    for u, v in zip(c, c[1:]):
+        B.bi.append([u, v])
+    for end, first in ((a, c[0]), (b, c[-1])):
+        (B.bi if rng.random() < 0.5 else B.di).append([end, first])
+    r = rng.random()
+    variant = "all"
+    chosen = list(c)
+    if r < 0.2:
+        chosen.remove(rng.choice(chosen)); variant = "one_missing"
+    elif r < 0.35:
+        chosen = [x for x in c if rng.random() < 0.6]; variant = "some"
+    Cs = []
+    for x in chosen:
+        d = rng.choice([0, 0, 0, 1, 2, 3]) if B.n < 10 else 0
+        ch = B.chain_below(x, d)
+        Cs.append(ch[-1] if ch else x)
+    _noise(rng, B, c, k=rng.choice([0, 0, 1]))
+    return B.finish(rng, a, b, Cs, f"bidirected_chain:{variant}")
+
+
+def shape_married_parents(rng):
+    """the seeded C04c / C03c shape: a district of k = 2..4 nodes (bidirected chain or star), EVERY member conditioned, each
+    member with its own private parent (sometimes a grandparent above it); a and b sit above DIFFERENT members and nothing else
+    connects them: a -> m1 <-> ... <-> mk <- b given {m1..mk} is connected.  Variants: one member unconditioned (separated when
+    it lies between the two), a conditioned member replaced by its conditioned child"""
+    B = _B()
+    k = rng.choice([2, 2, 2, 3, 3, 4])
+    mem = [B.new() for _ in range(k)]
+    star = k >= 3 and rng.random() < 0.3
+    for j in range(1, k):
+        B.bi.append([mem[0] if star else mem[j - 1], mem[j]])
+    tops = []
+    for x in mem:
+        pa = B.new()
+        B.di.append([pa, x])
+        if rng.random() < 0.3:
+            gp = B.new()
+            B.di.append([gp, pa])
+            pa = gp
+        tops.append(pa)
+    i, j = rng.sample(range(k), 2)
+    if rng.random() < 0.6:
+        i, j = (1 if star else 0), k - 1                    # the two ends: every member lies on the route
+    a, b = tops[i], tops[j]
+    Cs = list(mem)
+    variant = "all"
+    r = rng.random()
+    if r < 0.15:
+        Cs.remove(rng.choice(Cs)); variant = "one_missing"
+    elif r < 0.3:
+        x = rng.choice(Cs)
+        Cs.remove(x)
+        Cs.append(B.chain_below(x, rng.choice([1, 2]))[-1]); variant = "via_child"
+    if rng.random() < 0.3:                                    # a second private parent of a member, unconditioned
+        x = B.new()
+        B.di.append([x, rng.choice(mem)])
+    _noise(rng, B, mem, k=rng.choice([0, 0, 1]))
+    return B.finish(rng, a, b, Cs, f"married_parents:{variant}")
+
+
+def shape_sparse_big(rng):
+    """sparse ADMG on 7-10 nodes (edge probabilities <= 0.25), query by `rand_query` (|C| up to 8)"""
+    n = rng.randint(7, 10)
+    perm = list(range(n))
+    rng.shuffle(perm)
+    pd, pb = rng.choice([0.1, 0.18, 0.25]), rng.choice([0.0, 0.08, 0.15])
+    di, bi = [], []
+    for i in range(n):
+        for j in range(i + 1, n):
+            if rng.random() < pd:
+                di.append([perm[i], perm[j]])
+            if rng.random() < pb:
+                bi.append([perm[i], perm[j]] if rng.random() < 0.5 else [perm[j], perm[i]])
+    nodes = list(range(n))
+    rng.shuffle(nodes)
+    g = {"nodes": nodes, "di": di, "bi": bi}
+    a, b, Cs = rand_query(rng, g)
+    if rng.random() < 0.15:
+        Cs = [v for v in nodes if v not in (a, b) and rng.random() < 0.85]
+    return g, a, b, Cs, "sparse_big"
+
+
+def shape_disconnected(rng):
+    """two or three components without any edge between them (the seeded C15d shape): endpoints in different components are
+    separated by every set, endpoints in one component see only that component"""
+    comps = rng.choice([2, 2, 3])
+    nodes, di, bi, parts = [], [], [], []
+    off = 0
+    for _ in range(comps):
+        r = rng.random()
+        if r < 0.25:
+            h = {"nodes": [0], "di": [], "bi": []}
+        elif r < 0.4:
+            h = {"nodes": [], "di": [], "bi": [[0, 1]] + ([[1, 2]] if rng.random() < 0.5 else [])}
+        else:
+            h = rand_admg(rng, 2, 4)
+        V = G.all_nodes(h)
+        k = max(V) + 1 if V else 0
+        parts.append([v + off for v in V])
+        nodes += [v + off for v in h["nodes"]]
+        di += [[u + off, v + off] for u, v in h["di"]]
+        bi += [[u + off, v + off] for u, v in h["bi"]]
+        off += k
+    lab = list(range(off))
+    rng.shuffle(lab)
+    g = {"nodes": [lab[v] for v in nodes], "di": [[lab[u], lab[v]] for u, v in di], "bi": [[lab[u], lab[v]] for u, v in bi]}
+    rng.shuffle(g["nodes"]), rng.shuffle(g["di"]), rng.shuffle(g["bi"])
+    parts = [[lab[v] for v in p] for p in parts if p]
+    V = G.all_nodes(g)
+    if len(parts) >= 2 and rng.random() < 0.7:
+        pa, pb_ = rng.sample(parts, 2)
+        a, b = rng.choice(pa), rng.choice(pb_)
+    else:
+        a, b = rng.sample(V, 2)
+    Cs = [v for v in V if v not in (a, b) and rng.random() < rng.choice([0.0, 0.3, 0.7])]
+    return g, a, b, Cs, "disconnected"
+
+
+SHAPES = ((shape_deep_path, 30), (shape_long_fork, 12), (shape_bidirected_chain, 14), (shape_married_parents, 16),
+          (shape_sparse_big, 14), (shape_disconnected, 8))
+
+
+def structured_query(rng, only=None):
+    fs = [(f, w) for f, w in SHAPES if only is None or f.__name__[6:] in only]
+    f = rng.choices([f for f, _ in fs], weights=[w for _, w in fs])[0]
+    g, a, b, Cs, shape = f(rng)
+    if rng.random() < 0.08 and Cs:
+        Cs = Cs + [Cs[0]]
+    return g, a, b, Cs, shape
+
+
+# ---- measurements for the generator_distribution tags (never part of a verdict) ----
+
+def _dsep_depth(g, a, b, C, depth):
+    """the path oracle with ONE change: a collider is open only if a descendant within `depth` directed steps is conditioned.
+    Equal to the truth for depth >= |V|; the smallest depth at which it reaches the truth is how deep the verdict looks."""
+    nodes, pa, ch = O.canonical_dag(g)
+    Cs = set(C)
+
+    def near(v):
+        seen, layer = {v}, {v}
+        for _ in range(depth):
+            layer = {w for x in layer for w in ch[x]} - seen
+            seen |= layer
+        return bool(seen & Cs)
+    ok = {v: near(v) for v in nodes}
+    nb = {v: [(w, True) for w in ch[v]] + [(w, False) for w in pa[v]] for v in nodes}   # (w, arrowhead at w)
+
+    def dfs(path, arrived_head):
+        cur = path[-1]
+        for w, head_w in nb[cur]:
+            if w in path:
+                continue
+            leaves_head = not head_w          # edge cur <- w has its head at cur
+            if len(path) > 1:
+                if arrived_head and leaves_head:
+                    if not ok[cur]:
+                        continue
+                elif cur in Cs:
+                    continue
+            if w == b or dfs(path + [w], head_w):
+                return True
+        return False
+    return not dfs([a], False)
+
+
+def _msep_truncated(g, a, b, C, k, skip_full=False):
+    """m-separation by the ancestral-moral-graph criterion with the ancestral set TRUNCATED at k parent steps (the emulated
+    mutant of the gap review): equals the truth when k >= the depth of the ancestral closure"""
+    V = G.all_nodes(g)
+    pa = {v: set() for v in V}
+    for u, v in g["di"]:
+        pa[v].add(u)
+    keep = {a, b} | set(C)
+    layer = set(keep)
+    for _ in range(k):
+        layer = {p for x in layer for p in pa[x]} - keep
+        keep |= layer
+    adj = {v: set() for v in keep}
+
+    def link(u, v):
+        if u != v:
+            adj[u].add(v); adj[v].add(u)
+    for u, v in g["di"]:
+        if u in keep and v in keep:
+            link(u, v)
+    bi = [(u, v) for u, v in g["bi"] if u in keep and v in keep]
+    comp = {v: v for v in keep}
+
+    def find(v):
+        while comp[v] != v:
+            v = comp[v]
+        return v
+    for u, v in bi:
+        comp[find(u)] = find(v)
+    dist = {}
+    for v in keep:
+        dist.setdefault(find(v), set()).add(v)
+    for d in dist.values():
+        if skip_full and d <= set(C):
+            continue                      # the emulated seeded/C04c change
+        cl = set(d) | {p for x in d for p in pa[x] if p in keep}
+        for u in cl:
+            for v in cl:
+                link(u, v)
+    Cs = set(C)
+    seen, todo = {a}, [a]
+    while todo:
+        x = todo.pop()
+        for w in adj[x]:
+            if w not in seen and w not in Cs:
+                seen.add(w); todo.append(w)
+    return b not in seen
+
+
+def depth_tags(g, a, b, Cs, want):
+    """{collider_depth: how many directed steps below a collider the verdict looks, anc_depth: how many parent steps of the
+    ancestral closure it needs, c04c_decisive: skipping the cliques of fully conditioned districts changes it}"""
+    t = {}
+    n = len(G.all_nodes(g))
+    if not want:
+        d = 0
+        while d < n and _dsep_depth(g, a, b, Cs, d) != want:
+            d += 1
+        t["collider_depth"] = min(d, 5)
+    k = 0
+    for j in range(n, -1, -1):
+        if _msep_truncated(g, a, b, Cs, j) != want:
+            k = j + 1
+            break
+    t["anc_depth"] = min(k, 5)
+    t["c04c_decisive"] = _msep_truncated(g, a, b, Cs, n, skip_full=True) != want
+    return t
+
+
+# ---- name tables: the model works in integer space, the real code sees Variables named through an ORDER-PRESERVING table ----
+# plain: A00..A99 (gen_graph.vname); mixed: gen_graph.MIXED_NAMES (lengths 1-4, both cases, X1 < X10 < X2);
+# cf: counterfactual-variable NODES as in the graphs ID* / IDC* hand to are_d_separated (idc_star.py:202): each of five base
+# names plain and in the two worlds @+A09 / @-A09, numbered by the string order that DSeparationJudgement.create sorts with
+
+def _cf_pool():
+    from y0.dsl import Variable
+
+    w = Variable("A09")
+    pool = []
+    for i in range(5):
+        v = Variable(G.vname(i))
+        pool += [v, v @ +w, v @ -w]
+    return sorted(pool, key=str)
+
+
+_TABLES = {}
+
+
+def name_table(names):
+    """(int -> Variable, Variable -> int, capacity)"""
+    if names not in _TABLES:
+        if names == "cf":
+            pool = _cf_pool()
+            _TABLES[names] = (pool.__getitem__, pool.index, len(pool))
+        elif names == "mixed":
+            from y0.dsl import Variable
+
+            _TABLES[names] = (lambda i: Variable(G.vname_mixed(i)), lambda v: G.mixed_to_int(v.name), len(G.MIXED_NAMES))
+        else:
+            _TABLES[names] = (G.V, G.vint, 100)
+    return _TABLES[names]
+
+
+_CUR = {"names": None}
+
+
+def _V(i):
+    try:
+        return name_table(_CUR["names"])[0](i)
+    except IndexError:
+        return G.V(i)           # a foreign node of the malformed stream (90, 91, 92)
+
+
+def _vint(v):
+    try:
+        return name_table(_CUR["names"])[1](v)
+    except ValueError:
+        return G.vint(v)
+
+
+def with_names(rng, case, p_mixed=0.04, p_cf=0.04):
+    """hand a share of the cases to the other name tables (where the labels fit the table)"""
+    top = max(G.all_nodes(case["g"]) + [0])
+    r = rng.random()
+    if r < p_mixed and top < len(G.MIXED_NAMES):
+        case["names"] = "mixed"
+    elif r < p_mixed + p_cf and top < 15:
+        case["names"] = "cf"
+    return case
+
+
+def build_graph(g, ctor, seed, names=None):
+    """(graph, constructor fault or None) under the name table `names`"""
+    if names == "cf":
+        from y0.graph import NxMixedGraph
+
+        tv = name_table("cf")[0]
+        graph = NxMixedGraph.from_edges(nodes=[tv(i) for i in g["nodes"]], directed=[(tv(u), tv(v)) for u, v in g["di"]],
+                                        undirected=[(tv(u), tv(v)) for u, v in g["bi"]])
+        want = {tv(i) for i in G.all_nodes(g)}
+        if set(graph.nodes()) != want or set(graph.directed.nodes()) != want or set(graph.undirected.nodes()) != want:
+            return graph, f"from_edges built the nodes {sorted(map(str, graph.nodes()))} instead of {sorted(map(str, want))}"
+        if {(u, v) for u, v in graph.directed.edges()} != {(tv(u), tv(v)) for u, v in g["di"]} or \
+                {frozenset(e) for e in graph.undirected.edges()} != {frozenset((tv(u), tv(v))) for u, v in g["bi"]}:
+            return graph, "from_edges built other edges than it was given (counterfactual-variable nodes)"
+        return graph, None
+    name = G.vname_mixed if names == "mixed" else G.vname
+    graph = F.build_graph(g, ctor, seed=seed, name=name)
+    return graph, F.constructor_fault(g, graph, ctor, name=name)
+
+
 COND_FORMS = F.CONTAINERS                    # conditions: Iterable[Variable] | None
 EMPTY_FORMS = F.CONTAINERS + ("none", "omitted", "none", "omitted")
 
@@ -172,11 +642,17 @@ def cases(rng: random.Random, tier: str):
 
 def _cases(rng: random.Random, tier: str):
     out = [dict(c) for c in CORPUS] + C_load_corpus()
-    n_one = 9000 if tier == "quick" else 60000
+    n_one = 7400 if tier == "quick" else 52000
     for _ in range(n_one):
         g = rand_admg(rng)
         a, b, Cs = rand_query(rng, g)
-        out.append({"kind": "one", "g": g, "a": a, "b": b, "C": Cs, "shuffle_seed": rng.randrange(1 << 30)})
+        out.append(with_names(rng, {"kind": "one", "g": g, "a": a, "b": b, "C": Cs, "shuffle_seed": rng.randrange(1 << 30)}))
+    # structured shapes: ONE deep feature decides the verdict (deep collider descendants, long forks, long bidirected chains,
+    # fully conditioned districts marrying parents of different members, sparse 7-10 node graphs, disconnected graphs)
+    for _ in range(1900 if tier == "quick" else 14000):
+        g, a, b, Cs, shape = structured_query(rng)
+        out.append(with_names(rng, {"kind": "one", "g": g, "a": a, "b": b, "C": Cs, "shuffle_seed": rng.randrange(1 << 30),
+                                    "shape": shape}, 0.06, 0.06))
     # malformed / out-of-scope stream
     for _ in range(400 if tier == "quick" else 3000):
         g = G.rand_graph(rng, 1, 6, acyclic=rng.random() < 0.4)
@@ -202,9 +678,19 @@ def _cases(rng: random.Random, tier: str):
             conds = sorted(conds) if rng.random() < 0.7 else sorted(set(conds))
         out.append({"kind": "canon", "left": rng.randrange(8), "right": rng.randrange(8), "conds": conds,
                     "sep": rng.random() < 0.5})
+        r = rng.random()
+        if r < 0.3:
+            out[-1]["names"] = "mixed" if r < 0.15 else "cf"
     # verdict tables
-    for _ in range(200 if tier == "quick" else 1500):
-        out.append({"kind": "table", "g": rand_admg(rng, 2, 4 if tier == "quick" else 5)})
+    for _ in range(170 if tier == "quick" else 1500):
+        out.append(with_names(rng, {"kind": "table", "g": rand_admg(rng, 2, 4 if tier == "quick" else 5)}, 0.05, 0.05))
+    # whole tables of structured graphs on 5-6 nodes (quick) / 5-7 nodes (thorough): every pair x every set sees the deep shape
+    k = 0
+    while k < (24 if tier == "quick" else 150):
+        g, _, _, _, shape = structured_query(rng, only=("deep_path", "long_fork", "bidirected_chain", "married_parents"))
+        if 5 <= len(G.all_nodes(g)) <= 6:
+            out.append({"kind": "table", "g": g, "shape": shape.split(":")[0]})
+            k += 1
     if tier == "thorough":
         for k in (2, 3):
             for g in G.enumerate_graphs(k, cyclic=False):
@@ -231,8 +717,16 @@ def C_load_corpus():
 # ------------------------------------------------------------------------------------------ real code
 
 def _judgement(j):
-    return ["j", "true" if j.separated else "false", str(G.vint(j.left)), str(G.vint(j.right)),
-            [str(G.vint(c)) for c in j.conditions]]
+    return ["j", "true" if j.separated else "false", str(_vint(j.left)), str(_vint(j.right)),
+            [str(_vint(c)) for c in j.conditions]]
+
+
+def _is_canonical(j):
+    """j.is_canonical, False when the property itself raises (it compares Variables of different classes with `<`)"""
+    try:
+        return bool(j.is_canonical)
+    except Exception:  # noqa: BLE001
+        return False
 
 
 def _cell_form(a, b, Cs):
@@ -246,21 +740,20 @@ def _ads(graph, a, b, Cs, form, kw=False):
     from y0.algorithm.conditional_independencies import are_d_separated
 
     if form == "omitted":
-        return are_d_separated(graph=graph, a=G.V(a), b=G.V(b)) if kw else are_d_separated(graph, G.V(a), G.V(b))
-    conds = None if form == "none" else F.container([G.V(c) for c in Cs], form)
+        return are_d_separated(graph=graph, a=_V(a), b=_V(b)) if kw else are_d_separated(graph, _V(a), _V(b))
+    conds = None if form == "none" else F.container([_V(c) for c in Cs], form)
     if kw:
-        return are_d_separated(graph=graph, a=G.V(a), b=G.V(b), conditions=conds)
-    return are_d_separated(graph, G.V(a), G.V(b), conditions=conds)
+        return are_d_separated(graph=graph, a=_V(a), b=_V(b), conditions=conds)
+    return are_d_separated(graph, _V(a), _V(b), conditions=conds)
 
 
 def _call(g, a, b, Cs, form="list", ctor="from_edges", kw=False, seed=0):
     import networkx as nx
 
     try:
-        graph = F.build_graph(g, ctor, seed=seed)
+        graph, fault = build_graph(g, ctor, seed, _CUR["names"])
     except Exception as e:  # noqa: BLE001 - every graph dict is a legal input of every constructor
         return ["err"], f"constructor {ctor} raised {type(e).__name__}"
-    fault = F.constructor_fault(g, graph, ctor)
     if fault:
         return ["err"], fault
     try:
@@ -285,13 +778,13 @@ def table_order(V):
 def _run_table(case):
     g = case["g"]
     ctor = _forms(case)["ctor"]
-    graph = F.build_graph(g, ctor, seed=len(g["di"]) + 7 * len(g["bi"]))
+    graph, fault = build_graph(g, ctor, len(g["di"]) + 7 * len(g["bi"]), _CUR["names"])
     V = G.all_nodes(g)
     cells = []
     fails = []
     scope = O.is_acyclic(g)
-    if F.constructor_fault(g, graph, ctor):
-        return "#constructor-fault", [(V[0], V[-1], [], F.constructor_fault(g, graph, ctor), None)] if scope and V else []
+    if fault:
+        return "#constructor-fault", [(V[0], V[-1], [], fault, None)] if scope and V else []
     for a, b, Cs in table_order(V):
         try:
             s = bool(_ads(graph, a, b, Cs, _cell_form(a, b, Cs), kw=(a + b) % 2 == 1))
@@ -319,7 +812,7 @@ def _run_canon(case):
     """DSeparationJudgement built directly (possibly non-canonical) and through create()"""
     from y0.struct import DSeparationJudgement
 
-    left, right, conds = G.V(case["left"]), G.V(case["right"]), tuple(G.V(c) for c in case["conds"])
+    left, right, conds = _V(case["left"]), _V(case["right"]), tuple(_V(c) for c in case["conds"])
     raw = DSeparationJudgement(case["sep"], left, right, conds)
     fm = _forms(case)
     try:
@@ -327,22 +820,24 @@ def _run_canon(case):
     except Exception as e:  # noqa: BLE001 - create() is total on Variables
         return {"out": ["err"], "fail": f"DSeparationJudgement.create raised {type(e).__name__}: {str(e)[:100]}",
                 "nontrivial": False, "tags": dict({"kind": "canon"}, **F.tags(fm))}
-    out = ["ok", ["true" if raw.is_canonical else "false", _judgement(made)]]
+    raw_canonical = _is_canonical(raw)
+    out = ["ok", ["true" if raw_canonical else "false", _judgement(made)]]
     fail = None
     want_raw = case["left"] < case["right"] and list(case["conds"]) == sorted(case["conds"])
-    if raw.is_canonical != want_raw:
-        fail = f"is_canonical={raw.is_canonical} on ({case['left']},{case['right']}|{case['conds']})"
-    elif case["left"] != case["right"] and not made.is_canonical:
-        fail = "create() returned a non-canonical judgement"
-    elif [G.vint(made.left), G.vint(made.right)] != sorted([case["left"], case["right"]]) or \
-            [G.vint(c) for c in made.conditions] != sorted(set(case["conds"])) or made.separated != case["sep"]:
+    if raw_canonical != want_raw:
+        fail = f"is_canonical={raw_canonical} on ({left}, {right} | {', '.join(map(str, conds))})"
+    elif case["left"] != case["right"] and not _is_canonical(made):
+        fail = f"create() returned a non-canonical judgement ({made.left}, {made.right} | {', '.join(map(str, made.conditions))})"
+    elif [_vint(made.left), _vint(made.right)] != sorted([case["left"], case["right"]]) or \
+            [_vint(c) for c in made.conditions] != sorted(set(case["conds"])) or made.separated != case["sep"]:
         fail = f"create() does not carry the query: {made}"
     return {"out": out, "fail": fail, "nontrivial": len(case["conds"]) >= 2,
-            "tags": dict({"kind": "canon", "raw_canonical": raw.is_canonical}, **F.tags(fm))}
+            "tags": dict({"kind": "canon", "raw_canonical": raw_canonical, "names": case.get("names", "plain")}, **F.tags(fm))}
 
 
 def run_python(case):
     kind = case["kind"]
+    _CUR["names"] = case.get("names")
     if kind == "type":
         return _run_type(case)
     if kind == "canon":
@@ -357,7 +852,8 @@ def run_python(case):
             fail = (f"are_d_separated({a},{b}|{Cs}) = {s} but d-separation in the canonical latent DAG is {want} "
                     f"({len(fails)} of {len(cells) - 1} queries of this graph differ)")
         return {"out": ["ok", cells], "fail": fail, "nontrivial": bool(g["bi"]) and len(V) >= 3,
-                "tags": dict({"kind": "table", "n_nodes": len(V), "n_bi": min(len(g["bi"]), 6)}, **F.tags(_forms(case)))}
+                "tags": dict({"kind": "table", "n_nodes": len(V), "n_bi": min(len(g["bi"]), 6), "names": case.get("names", "plain"),
+                              "shape": case.get("shape", "random")}, **F.tags(_forms(case)))}
     a, b, Cs = case["a"], case["b"], case["C"]
     fm = _forms(case)
     kw = fm["call"] == "keyword"
@@ -366,7 +862,8 @@ def run_python(case):
     scope = O.in_scope(g, a, b, Cs)
     fail = None
     tags = {"kind": "one", "n_nodes": len(V), "n_bi": min(len(g["bi"]), 6), "csize": len(set(Cs)), "in_scope": scope,
-            "outcome": out[0] if out[0] == "err" else out[1][1]}
+            "outcome": out[0] if out[0] == "err" else out[1][1], "names": case.get("names", "plain"),
+            "shape": case.get("shape", "random")}
     tags.update(F.tags(fm))
     nontrivial = False
     if scope:
@@ -374,6 +871,7 @@ def run_python(case):
         nobi = O.d_separated({"nodes": V, "di": g["di"], "bi": []}, a, b, Cs)
         tags["bidirected_matter"] = want != nobi
         tags["truth"] = want
+        tags.update(depth_tags(g, a, b, Cs, want))
         nontrivial = bool(Cs) or want != nobi
         if out[0] != "ok":
             fail = f"are_d_separated raised {j} on a valid query" if "constructor" not in str(j) else str(j)
@@ -383,8 +881,8 @@ def run_python(case):
                 path = None if want else O.d_connecting_path(g, a, b, Cs)
                 fail = (f"verdict separated={got} but d-separation in the canonical latent DAG is {want}"
                         + (f"; d-connecting path {path}" if path else ""))
-            elif not j.is_canonical:
-                fail = "returned judgement is not canonical"
+            elif not _is_canonical(j):
+                fail = f"returned judgement ({j.left}, {j.right} | {', '.join(map(str, j.conditions))}) is not canonical"
             elif [out[1][2], out[1][3]] != [str(x) for x in sorted([a, b])] or \
                     out[1][4] != [str(x) for x in sorted(set(Cs))]:
                 fail = f"judgement record {out[1]} does not carry the query ({a},{b}|{sorted(set(Cs))}) in canonical order"
